@@ -9,6 +9,7 @@
   order, write back).  Here: C02's last sentence for the composed model.
 -/
 import CTM.Lemmas.Compose
+import CTM.Lemmas.ComposeWF
 
 namespace CTM.C02
 open CTM CTM.LevelLoop CTM.OutBridge CTM.Election CTM.Numeric CTM.Compose
@@ -75,6 +76,22 @@ theorem pipeline_recompute (t0 t : RawTree) (cfg : Config) (P : ElectionParams)
   refine ⟨i, id, c, raw, hi1, hi2, hid, h1, h2, hlinked, ?_⟩
   intro k hk
   exact record_level_of_raw (wfb_nodup_hierarchy rt.wf) o _ raw h2 h3 h4 h5 k hk
+
+/-- on a taxonomy the validator accepts (run tree `t`), the hypothesis
+`NoRaiseAll` of the pipeline theorems is a statement about the parameters only:
+an iteration is drawn, the subsets index into the node's gene list,
+`n_assignments ≥ 1` — that every question has a reference row (a leaf below some
+child) follows from the tree ("considering only leaves below the node" is never
+an empty set). -/
+theorem no_raise_of_validate (P : ElectionParams) {t : RawTree}
+    (hv : t.validate = .ok ()) (hN : t.hierarchy.Nodup)
+    (hiters : ∀ p x, P.subsets p x ≠ [])
+    (hrange : ∀ p x, ∀ s ∈ P.subsets p x, ∀ i ∈ s,
+      i < (P.qcols p).length ∧ i < (P.rcols p).length)
+    (hA : 1 ≤ P.nAssign) : NoRaiseAll P t :=
+  noRaiseAll_of_validate P hv hN hiters hrange hA
+
+example : exTree.validate = .ok () ∧ exTree.hierarchy.Nodup := by decide
 
 /-- non-vacuity: all hypotheses hold for the example taxonomy with the
 parameters `exP` (three genes, query columns permuted w.r.t. the reference, two
